@@ -377,6 +377,56 @@ func genFree(r *common.Rand, n int, emit func(string)) {
 	}
 }
 
+// ---- free-running contention over pre-existing markers in the three states {absent, live,
+// expired-not-yet-swept}: N in {2,4,8} allocators / generators are released behind a spin barrier onto
+// the same tiny candidate space of every real store kind.  Expired markers are written with a 1 ms
+// TTL and the case waits 3 ms (really, on the memory-backed stores, whose deletion is lazy).
+func genFreeStates(r *common.Rand, rounds int, emit func(string)) {
+	stores := []string{"mem", "hyb", "mem", "hyb", "red", "hyr", "dbl"}
+	for c := 0; c < rounds; c++ {
+		store := stores[c%len(stores)]
+		nt := []int{2, 4, 8}[c%3]
+		node := c%2 == 0
+		kind := nodeKind
+		if !node {
+			kind = r.Intn(4)
+		}
+		space := 1 + r.Intn(6)
+		if !node {
+			space = 4 + r.Intn(9)
+		}
+		var pre []preEnt
+		for i := 1; i <= space; i++ {
+			switch st := (c/6 + i) % 6; st { // state of candidate i: mostly expired, also live / absent
+			case 0:
+				pre = append(pre, preEnt{kind, candID(kind, uint64(i)), 0}) // live
+			case 1: // absent
+			default:
+				pre = append(pre, preEnt{kind, candID(kind, uint64(i)), 1}) // expired after the wait
+			}
+		}
+		var thr []thrSpec
+		for t := 0; t < nt; t++ {
+			inst := t
+			if !node && r.Intn(3) == 0 {
+				inst = 0
+			}
+			if node {
+				thr = append(thr, thrSpec{inst, []string{"g 9 0"}})
+				continue
+			}
+			// every thread walks the contended candidates in the same order; a loser falls back to a
+			// private id at once, so the threads stay in step and every candidate is a fresh race
+			var ops []string
+			for i := 1; i <= space; i++ {
+				ops = append(ops, genOp(kind, []uint64{uint64(i), uint64(1000 + 100*t + i)}))
+			}
+			thr = append(thr, thrSpec{inst, ops})
+		}
+		emit(mkCase(true, store, true, defTTL, pre, thr, [][2]int64{{1, 3}}))
+	}
+}
+
 // ---- E: node id allocation, renewal, release, lease expiry
 func genNode(r *common.Rand, n int, emit func(string)) {
 	lock := node.NodeIDLockTTL.Milliseconds()
@@ -508,6 +558,7 @@ func generate(r *common.Rand, tier string, emit func(string)) {
 	genExhaustion(r.Fork(), 16*scale, emit)
 	genFallback(r.Fork(), 150*scale, emit)
 	genFree(r.Fork(), 120*scale, emit)
+	genFreeStates(r.Fork(), 700*(1+scale/3), emit)
 	genNode(r.Fork(), 300*scale, emit)
 	genNodeExhaustion(emit)
 }
